@@ -623,7 +623,7 @@ def run_cli_hist(ctx, spec, model_bin, fclones, clidir, count=True):
     return fails
 
 
-def run_cli_window(ctx, fclones, clidir, attempt):
+def run_cli_window(ctx, fclones, clidir, attempt, inplace=False):
     """K1 regression at the level of the binary (main.rs run_group decides WHEN the report is stamped): a scan kept
     busy by two large files; the small member b is rewritten with the same length while `fclones group` is still
     running and after b was hashed; then a real `remove`.  Conclusive iff the report lists {a, b} (b was hashed
@@ -637,13 +637,29 @@ def run_cli_window(ctx, fclones, clidir, attempt):
         with open(os.path.join(tree, n), "wb") as fh:
             fh.write(b"DDDDDDDD")
         os.utime(os.path.join(tree, n), (1_600_000_000, 1_600_000_000))
-    for n in ("big1", "big2"):
-        with open(os.path.join(tree, n), "wb") as fh:
-            fh.truncate((64 + 48 * attempt) * 1024 * 1024)       # sparse; hashing them keeps the scan running
-    rep = os.path.join(clidir, "report")
+    extra = []
     env = dict(os.environ, RAYON_NUM_THREADS="2")
+    if inplace:
+        # `--transform P $IN --in-place --no-copy`: P works on the originals (here: it leaves them as they are and is slow for the
+        # files named big*), so the scan is still busy long after a and b have been read
+        bind = os.path.join(clidir, "bin")
+        os.makedirs(bind)
+        with open(os.path.join(bind, "slowbig.sh"), "w") as fh:
+            fh.write("#!/bin/sh\ncase \"$(basename \"$1\")\" in big*) sleep %s;; esac\nexit 0\n" % (2 + attempt))
+        os.chmod(os.path.join(bind, "slowbig.sh"), 0o755)
+        env["PATH"] = bind + ":" + env.get("PATH", "/usr/bin:/bin")
+        extra = ["--transform", "slowbig.sh $IN", "--in-place", "--no-copy"]
+        for n in ("big1", "big2"):
+            with open(os.path.join(tree, n), "wb") as fh:
+                fh.write(b"BIGBIGBIGBIG")
+            os.utime(os.path.join(tree, n), (1_600_000_000, 1_600_000_000))
+    else:
+        for n in ("big1", "big2"):
+            with open(os.path.join(tree, n), "wb") as fh:
+                fh.truncate((64 + 48 * attempt) * 1024 * 1024)       # sparse; hashing them keeps the scan running
+    rep = os.path.join(clidir, "report")
     t0 = time.time()
-    proc = subprocess.Popen([fclones, "group", tree, "-o", rep, "--rf-over", "1"], cwd=clidir, env=env,
+    proc = subprocess.Popen([fclones, "group", tree, "-o", rep, "--rf-over", "1"] + extra, cwd=clidir, env=env,
                             stdout=subprocess.DEVNULL, stderr=subprocess.DEVNULL)
     time.sleep(0.3 + 0.15 * attempt)
     b = os.path.join(tree, "b")
@@ -665,7 +681,7 @@ def run_cli_window(ctx, fclones, clidir, attempt):
         d = c08.sh([fclones, "remove"], clidir, stdin=report, env=env)
         post = inventory([os.path.join(tree, "a"), b])
         ts_line = [l for l in report.split("\n") if l.startswith("# Timestamp:")][0]
-        rec = {"cli_window": True, "report_timestamp": ts_line, "edit_after_start_s": round(t_edit - t0, 3),
+        rec = {"cli_window": True, "inplace_nocopy_transform": inplace, "report_timestamp": ts_line, "edit_after_start_s": round(t_edit - t0, 3),
                "pre": {k.replace(tree + "/", ""): list(v) for k, v in pre.items()},
                "post": {k.replace(tree + "/", ""): list(v) for k, v in post.items()}, "remove_stderr": d.stderr[-800:].replace(clidir, "<dir>"),
                "how": "a, b = DDDDDDDD plus two large files; b rewritten with EEEEEEEE while `fclones group` was running, after b had "
@@ -711,7 +727,7 @@ def run(ctx):
         if rp.get("cli_window"):
             fl = []
             for k in range(4):
-                conclusive, fl = run_cli_window(ctx, core.build_fclones(), os.path.join(ctx.scratch, "cliw"), k)
+                conclusive, fl = run_cli_window(ctx, core.build_fclones(), os.path.join(ctx.scratch, "cliw"), k, inplace=rp.get("inplace_nocopy_transform", False))
                 if conclusive:
                     break
             report(ctx, fl, model_bin, scratch)
@@ -759,6 +775,15 @@ def run(ctx):
             ctx.count()
             ctx.distinct(("cliw", tries), True)
             fails += fl
+    # the same window with `--transform P $IN --in-place --no-copy` (the report of such a run is stamped like any other)
+    for k in range(3):
+        conclusive, fl = run_cli_window(ctx, fclones, os.path.join(ctx.scratch, "cliw_ip"), k, inplace=True)
+        ctx.bump("cli_rewrite_during_group_run", "inplace_nocopy:" + ("conclusive" if conclusive else "inconclusive"))
+        if conclusive:
+            ctx.count()
+            ctx.distinct(("cliw_ip", k), True)
+            fails += fl
+            break
     ctx.extra["cli_rewrite_during_group_run_conclusive"] = got
     if got == 0:
         raise RuntimeError("the rewrite-during-group-run scenario could not be placed inside the window in %d attempts" % tries)
